@@ -146,8 +146,20 @@ package volatility
 //@ ensures[C03] consumed(highs) == len(highs) && consumed(lows) == len(lows) && consumed(closings) == len(closings) && closed(result)
 //@ ensures[C04] forall kk :: 0 <= kk && kk < len(result) ==> hor(result, kk) <= max(hor(highs, kk + (s.IdlePeriod())), max(hor(lows, kk + (s.IdlePeriod())), hor(closings, kk + (s.IdlePeriod()))))
 
+// Percentage Drawdown = 100 * ((Closings - High Closings) / High Closings), High Closings = Max(period, Closings);
+// Ulcer Index = Sqrt(Sma(period, Percent Drawdown * Percent Drawdown))   (documented)
+//@ stream pdS(c stream, P int)[k] = (c[k + P - 1] - wmaxS(c, k, k + P)) / wmaxS(c, k, k + P) * 100
+//@ stream pdsqS(c stream, P int)[k] = pdS(c, P)[k] * pdS(c, P)[k]
+//@ stream ulcerS(c stream, P int)[k] = sqrt(smaS(pdsqS(c, P), P)[k])
 //@ func UlcerIndex.Compute
 //@ requires u.Period >= 1 && consumed(closings) == 0
 //@ ensures[C02] len(result) == max(0, len(closings) - (u.IdlePeriod()))
 //@ ensures[C03] consumed(closings) == len(closings) && closed(result)
 //@ ensures[C04] forall kk :: 0 <= kk && kk < len(result) ==> hor(result, kk) <= hor(closings, kk + (u.IdlePeriod()))
+//@ use wmax_cong(closingsSplice[0], closings, _, _)
+//@ step[C01,C15] "drawdown" forall j :: 0 <= j && j < len(percentageDrawdown) ==> percentageDrawdown[j] == pdS(closings, u.Period)[j]
+//@ use psum_cong(percentageDrawdown, pdS(closings, u.Period), _)
+//@ step[C01,C15] "average" forall k :: 0 <= k && k < len(result) ==> res(Sma_Compute, 0)[k] == smaS(pdS(closings, u.Period), u.Period)[k]
+//@ step[C01,C15] "as-implemented" forall k :: 0 <= k && k < len(result) ==> result[k] == sqrt(powr(smaS(pdS(closings, u.Period), u.Period)[k], 2))
+//@ ensures[C01] "documented" forall k :: 0 <= k && k < len(result) ==> result[k] == ulcerS(closings, u.Period)[k]
+//@ ensures[C15] "non-negative" forall k :: 0 <= k && k < len(result) ==> result[k] >= 0
